@@ -19,6 +19,12 @@ FailsEq(e) ==
   \* ... also once one of the two has been printed / compared with a text (a value's hash never changes)
   \cup If(("heq2" \in DOMAIN e /\ e.a = e.b) => e.heq2, "C13.equal_but_different_hash")
   \cup If("hstable" \in DOMAIN e => e.hstable, "C13.hash_of_a_value_changed")
+(* what C13 states of ANY two values, whatever they are (used for values outside the alphabet of the model) *)
+FailsEqAny(e) ==
+     If(e.res2 = e.res, "C13.eq_not_symmetric")
+  \cup If(e.ne = ~e.res, "C13.ne_not_negation_of_eq")
+  \cup If(e.res => (e.heq /\ e.heq2), "C13.equal_but_different_hash")
+  \cup If(e.hstable, "C13.hash_of_a_value_changed")
 FailsEqt(e) == If(e.res = (e.toks = Show(e.a) /\ ~e.blank), "C13.text_eq_iff_canonical")
 FailsXor(e) == If(e.res = (Blind(e.a) = Blind(e.b)), "C13.xor_is_blind_equality")
 FailsClr(e) ==
@@ -36,6 +42,7 @@ FailsStore(e) ==
   \cup If(e.size = Cardinality(NewStore(e)), "C13.container_size")
 
 Fails(e) == CASE e.e = "eq" -> FailsEq(e)
+              [] e.e = "eqd" -> FailsEqAny(e)
               [] e.e = "eqt" -> FailsEqt(e)
               [] e.e = "xor" -> FailsXor(e)
               [] e.e = "clr" -> FailsClr(e)
